@@ -108,6 +108,27 @@ def _(self, t, fn):
     return self(t.__args__, fn)
 
 
+class _ClassLevelTest:
+    """isinstance(value, t) for a type t that only looks at the class.
+
+    The answer for a class is remembered, like the resolution of a call is:
+    user-defined class predicates and type hooks are not consulted again by
+    every call.
+    """
+
+    def __init__(self, t):
+        self.t = t
+        self.known = {}
+
+    def __call__(self, value):
+        cls = type(value)
+        try:
+            return self.known[cls]
+        except KeyError:
+            result = self.known[cls] = isinstance(value, self.t)
+            return result
+
+
 class MetaMC(type):
     def __new__(T, name, handler):
         return super().__new__(T, name, (), {"_handler": handler})
@@ -118,11 +139,12 @@ class MetaMC(type):
     def codegen(cls):
         if hasattr(cls._handler, "codegen"):
             return cls._handler.codegen()
-        # A class-level type (Exactly[A], HasMethod[...]) next to value-dependent
-        # members of a union / intersection: an instance check
+        # A class-level type (Exactly[A], HasMethod[...], a class_check) next
+        # to value-dependent members of a union / intersection: an instance
+        # check, worked out once per class of the argument
         from .dependent import CodeGen
 
-        return CodeGen("isinstance({arg}, {this})", this=cls)
+        return CodeGen("{test}({arg})", test=_ClassLevelTest(cls))
 
     def __type_order__(cls, other):
         return cls._handler.__type_order__(other)
@@ -411,7 +433,12 @@ class Union:
         )
 
     def codegen(self):
-        from .dependent import CodeGen, combine, generate_checking_code
+        from .dependent import (
+            CodeGen,
+            combine,
+            generate_checking_code,
+            is_dependent,
+        )
 
         def guarded(t):
             # The check of a dependent member is only meaningful for
@@ -420,9 +447,12 @@ class Union:
             bound = getattr(t, "bound", None)
             if bound is None:
                 if hasattr(t, "_handler"):
-                    # A nested union / intersection: its own checking code
-                    # assumes that the bounds of its members hold
-                    return CodeGen("isinstance({arg}, {member})", member=t)
+                    if is_dependent(t):
+                        # A nested union / intersection: its own checking
+                        # code assumes that the bounds of its members hold
+                        return CodeGen("isinstance({arg}, {member})", member=t)
+                    # A type that only looks at the class of the argument
+                    return CodeGen("{test}({arg})", test=_ClassLevelTest(t))
                 return cg
             bcg = generate_checking_code(bound)
             return combine("({} and {})", [bcg, cg])
